@@ -125,14 +125,79 @@ def cmp_field(got, want):
 
 
 def schema_of_function(f):
-    """(message fields, {local name: fields}, loops) for an encode_* function"""
-    defs = defs_of(f)
-    # the expression handed to encoders::encode(...)
+    """(message fields, encode call) of the FULL form of an encode_* function; further encode() sites (short forms)
+    are returned by alt_encode_sites()"""
     enc = [(b, i, l, c) for b, i, l, c in f.calls() if callee_q(c) == 'boost::mqtt5::encoders::encode']
-    if len(enc) != 1:
-        raise AnalysisBroken('%s: expected exactly one encode() of the composed message, found %d' % (f.n, len(enc)))
-    msg = dsl.normalise(dsl.fields(f, enc[0][3]['args'][0], f.params))
-    return msg, enc[0]
+    if not enc:
+        raise AnalysisBroken('%s: no encode() of a composed message found' % f.n)
+    if len(enc) == 1:
+        return dsl.normalise(dsl.fields(f, enc[0][3]['args'][0], f.params)), enc[0]
+    msgs = [(dsl.normalise(dsl.fields(f, e[3]['args'][0], f.params)), e) for e in enc]
+    msgs.sort(key=lambda t: -len(t[0]))
+    return msgs[0]
+
+
+def alt_encode_sites(f):
+    enc = [(b, i, l, c) for b, i, l, c in f.calls() if callee_q(c) == 'boost::mqtt5::encoders::encode']
+    if len(enc) < 2:
+        return []
+    msgs = [(dsl.normalise(dsl.fields(f, e[3]['args'][0], f.params)), e) for e in enc]
+    msgs.sort(key=lambda t: -len(t[0]))
+    return msgs[1:]
+
+
+def short_form_encoder_check(fx, f, msg, enc, sp, v, prop):
+    """An additional encode() site is acceptable only as the MQTT 5 short form of this packet: fixed header + Remaining
+    Length 0, taken on an edge that establishes reason code == 0 AND the emptiness of EVERY property the packet's
+    property class can hold (not just some of them)."""
+    from flow import edge_guards, comparison
+    where = '%s:%s' % (f.path_file(), enc[2])
+    shape = len(msg) == 2 and msg[0].get('kind') == 'flags8' and msg[1].get('kind') in ('byte', 'varlen') and (
+        msg[1].get('src') == {'const': 0} or msg[1].get('kind') == 'varlen')
+    guards = [comparison(origin(f, c), pol) for c, pol, gb in edge_guards(f, enc[0])]
+    rc_zero = any(cm and cm[0] == '==' and contains(cm[1], lambda n: n.get('k') == 'ref' and n.get('dk') == 'param' and n.get('n') == 'reason_code')
+                  and _cv(cm[2]) == 0 for cm in guards)
+    # properties known empty on this edge
+    empties = set()
+    for cm in guards:
+        if not cm:
+            continue
+        op, l_, r_ = cm
+        names = set()
+        for n in Expr.walk(l_):
+            if n.get('k') == 'call' and n.get('op') == '[]' and len(n.get('args', [])) == 2:
+                a = core(n['args'][1])
+                if isinstance(a, dict) and a.get('k') == 'ref':
+                    names.add(a.get('n'))
+        if not names:
+            continue
+        has_value = contains(l_, lambda n: n.get('k') == 'call' and callee_name(n) in ('has_value', 'operator bool'))
+        is_empty = contains(l_, lambda n: n.get('k') == 'call' and callee_name(n) == 'empty')
+        if (has_value and op == '==' and _cv(r_) == 0) or (is_empty and op == '!=' and _cv(r_) == 0):
+            empties |= names
+    pack = set()
+    for p_ in f.params:
+        if (p_.get('tcls') or '').endswith('_props'):
+            from c16 import _pack_of
+            pack = set(_pack_of(fx, p_['tcls'], f.tu) or [])
+    missing = sorted(pack - empties)
+    ok = shape and rc_zero and pack and not missing
+    v.check(ok, 'R-SCHEMA', '%s:short-form@%s' % (f.n, enc[2]),
+            'an extra encode() site is the short form (header + Remaining Length 0) on an edge with reason code 0 and every property of %s empty' % (
+                sorted(pack),) if ok else 'extra encode() site: short-form shape %s, reason code known 0: %s, properties NOT known to be empty on that edge: %s '
+            '(they would be dropped from the packet)' % (shape, rc_zero, missing),
+            key='%s:R-SCHEMA:%s:short-form' % (prop, f.n), where=where)
+
+
+def _cv(x):
+    while isinstance(x, dict):
+        if 'c' in x:
+            return x['c']
+        if x.get('k') in ('icast', 'cast', 'local', 'paramof'):
+            x = x.get('e')
+        else:
+            return None
+    return None
 
 
 def local_name(f, x):
@@ -206,8 +271,11 @@ def encoder_schema_rules(fx, v, prop='C17', only=None):
         where = f.file
         try:
             msg, enc = schema_of_function(f)
+            alts = alt_encode_sites(f)
         except dsl.DslError as e:
             raise AnalysisBroken('%s: %s' % (f.n, e))
+        for amsg, aenc in alts:
+            short_form_encoder_check(fx, f, amsg, aenc, sp, v, prop)
         # ---- fixed header
         hdr = msg[0] if msg else {}
         ok = hdr.get('kind') == 'flags8' and hdr.get('total_bits') == 8
